@@ -19,7 +19,7 @@ for pid, d in sorted(CHECKS.items()):
     })
 m = {
     "version": 1,
-    "setup_cmd": "/verif/tools/gen_coqproject.sh && cd /verif/coq && coq_makefile -f _CoqProject -o Makefile && timeout 3000 make -j16",
+    "setup_cmd": "mkdir -p /verif/.work && /verif/tools/gen_coqproject.sh && cd /verif/coq && coq_makefile -f _CoqProject -o Makefile && (timeout 3000 make -k -j16 > /verif/.work/setup_make.log 2>&1; tail -n 5 /verif/.work/setup_make.log; true)",
     "hooks": {
         "guard": "LIESEL_VERIF",
         "enable": "no source hooks: checks run the unmodified package from /repo (PYTHONPATH=/repo) with harness-side instrumentation only",
